@@ -593,6 +593,12 @@ class FnTranslator:
             raise Unsupported("binop " + type(e.op).__name__)
         if isinstance(e, ast.UnaryOp):
             if isinstance(e.op, ast.Not):
+                o = e.operand
+                flip = {ast.Eq: ast.NotEq, ast.NotEq: ast.Eq, ast.Lt: ast.GtE, ast.GtE: ast.Lt, ast.Gt: ast.LtE, ast.LtE: ast.Gt,
+                        ast.In: ast.NotIn, ast.NotIn: ast.In, ast.Is: ast.IsNot, ast.IsNot: ast.Is}
+                if isinstance(o, ast.Compare) and len(o.ops) == 1 and type(o.ops[0]) in flip:
+                    # `not a == b` and `a != b` (etc.) are the same test: one canonical translation for both spellings
+                    return self.compare(ast.Compare(left=o.left, ops=[flip[type(o.ops[0])]()], comparators=o.comparators))
                 return f"(!{self.cond(e.operand)})"
             if isinstance(e.op, ast.USub):
                 if isinstance(e.operand, ast.Constant) and isinstance(e.operand.value, int):
@@ -1175,6 +1181,21 @@ class FnTranslator:
             return f"(env.canonicalPermutation {self.e(recv)} {self.e(kw['color'])})"
         if attr == "permute_vertices":
             return f"(env.permuteVertices {self.e(recv)} {self.e(a[0])})"
+        if attr == "format" and isinstance(recv, ast.Constant) and isinstance(recv.value, str) and not kw:
+            import string
+            values, k = [], 0
+            for lit, field, spec, conv in string.Formatter().parse(recv.value):
+                if lit:
+                    values.append(ast.Constant(value=lit))
+                if field is not None:
+                    if field != "" or conv:
+                        raise Unsupported("str.format with named/indexed fields or conversions")
+                    if k >= len(a):
+                        raise Unsupported("str.format with too few arguments")
+                    fs = ast.JoinedStr(values=[ast.Constant(value=spec)]) if spec else None
+                    values.append(ast.FormattedValue(value=a[k], conversion=-1, format_spec=fs))
+                    k += 1
+            return self.expr(ast.JoinedStr(values=values))
         if attr == "strftime":
             self.external_state.add("datetime.now()")
             return "env.nowStamp"
